@@ -225,6 +225,12 @@ def judge(o):
     r1 = o.get("run1") or {}
     if o.get("harness_err"):
         return "unjudged:driver: " + o["harness_err"][:300], {}
+    rp0 = (o.get("restart") or {}).get("proc") or {}
+    if r1.get("bind_failure") or rp0.get("bind_failure"):
+        # other checks start servers on this machine at the same time and find their ports the same way; a start that
+        # lost its port to another process (after the driver's retries on fresh ports) says nothing about the server
+        return "unjudged:a port was taken by another process (%s start, %d attempts): address already in use" % (
+            "first" if r1.get("bind_failure") else "second", (r1 if r1.get("bind_failure") else rp0).get("attempts", 0)), {}
     if not r1.get("started"):
         return "unjudged:the server did not start: " + (r1.get("start_err") or "")[-400:], {}
     if o.get("setup_err"):
@@ -299,9 +305,7 @@ def judge(o):
         if not rp.get("started"):
             fail("restart_up", "the next start on the same state file and ports failed: %s" % (rp.get("start_err") or "")[-400:])
         else:
-            if rp.get("ports_changed"):
-                fail("restart_up", "the ports of the first run could not be bound again")
-            v.setdefault("restart_up", "pass")
+            v.setdefault("restart_up", "pass")   # ports_changed is recorded only: another process may have taken them
             proc("second run", rp)
             if sc["state_file"] and (must or n_pre):
                 if sc.get("ipc"):
@@ -530,6 +534,10 @@ def t4_stage(ctx, only=None, repeat=1, verbose=False):
                                      "in_flight_at_signal": sum((o.get("inflight") or {}).get("in_flight_at_signal", 0) for o, _ in judged)},
         "holds_checked_in_state_file": sum(len(o.get("must_keys") or []) + (o.get("preloaded") or 0) - min(2, o.get("preloaded") or 0) for o, _ in judged if o["scenario"]["state_file"]),
         "restarts": sum(1 for o, _ in judged if (o.get("restart") or {}).get("proc", {}).get("started")),
+        "restarts_on_the_first_runs_ports": sum(1 for o, _ in judged if (o.get("restart") or {}).get("proc", {}).get("started")
+                                                and not (o.get("restart") or {}).get("proc", {}).get("ports_changed")),
+        "starts_repeated_on_fresh_ports": sum(max(0, (o.get("run1") or {}).get("attempts", 1) - 1) + max(0, ((o.get("restart") or {}).get("proc") or {}).get("attempts", 1) - 1)
+                                              for o in by_id.values()),
         "restored_holds_probed": sum(len((o.get("restart") or {}).get("probes") or []) for o, _ in judged),
         "repeated_because_signal_may_have_preceded_the_handler": rerun,
         "scenario_ids": [sc["id"] for sc in scs],
@@ -565,6 +573,7 @@ ASSUMPTIONS = [
     "T4 shows the clauses on the scenarios run (counts in coverage.ties['T4-binary']), on this machine's scheduler and file system; the windows between the closer's steps are hit by timing (offsets from the seed, repeated runs), not enumerated — enumeration of the interleavings is the job of the Msv theorems and the T2 tie",
     "'promptly' is judged as signal -> exit < 5000 ms; the measured distribution is in coverage",
     "durability against power loss (fsync ordering, directory sync) is out of scope: the state file is read back from the page cache after a normal exit",
+    "ports are found by listen-and-close; a start (first or second, gRPC or REST port) that meets 'address already in use' is repeated on fresh ports up to 5 times and, failing that, the scenario is not judged — so the release of the listening ports by the exiting process is observed only when the restart could reuse them (coverage: restarts_on_the_first_runs_ports)",
     "leases in T4 are 30 s or longer so that no hold expires during a scenario; lease expiry racing the shutdown is covered in virtual time by T1",
     "a hold counts as live at the signal when its grant was acknowledged to the driver and the driver sent no Unlock for it; holds whose Unlock was in flight at the signal may or may not be in the file (both are accepted)",
 ]
@@ -630,7 +639,8 @@ def do_replay(ctx):
 if __name__ == "__main__":
     if "--t4-only" in sys.argv:
         tier = "thorough" if "thorough" in sys.argv else "quick"
-        c = vcheck.Ctx("C11", tier, int(os.environ.get("VERIF_SEED", "1")))
+        # its own work directory: this entry point may run next to `bin/check C11` (which wipes .work/C11 when it starts)
+        c = vcheck.Ctx("C11T4ONLY", tier, int(os.environ.get("VERIF_SEED", "1")))
         t4_stage(c, verbose=True)
         print(json.dumps({k: v for k, v in c.coverage["ties"]["T4-binary"].items() if k not in ("scenario_ids",)}, indent=1))
         for path, text, nfi in c.violations:      # no evidence file is written by this entry point
